@@ -220,8 +220,8 @@ def gen_snap_unit(r, ids):
     axes3 = [[1.0, 0.0, 0.0], [0.0, 1.0, 0.0], [0.0, 0.0, 1.0]]
 
     def radial_hints(centre, R, axis, rad, zr, shift):
-        """points half-way between the surface of radius rad about centre (+axis) and the same
-        surface displaced by `shift`"""
+        """points between the surface of radius rad about `centre` (+axis) and the same surface
+        displaced by `shift` (for the snap rules `centre` is where the SNAPPED surface would be)"""
         a = matcol(R, 2) if axis else None
         for _ in range(14):
             if axis:
@@ -267,7 +267,7 @@ def gen_snap_unit(r, ids):
         if rule == "sphere":
             rad = r.uniform(0.5, 1.5)
             o = ("prim", dict(k="sphere", p=[rad], bb=[rad] * 3))
-            radial_hints(t, R, False, lambda z: rad, 0, shift)
+            radial_hints(along, R, False, lambda z: rad, 0, shift)
         elif rule == "cyl":
             rad, hh = r.uniform(0.4, 1.2), r.uniform(0.5, 1.2)
             c = r.random()
@@ -278,13 +278,13 @@ def gen_snap_unit(r, ids):
                 o = ("solid", pi, dict(k="cyl", p=[rad * 0.5, hh], bb=[rad, rad, hh]), None)
             else:   # polycone whose first segment has equal radii (built as a cylinder)
                 o = ("polycone", [-hh, 0.0, hh], [rad, rad, rad * 0.7], None, None, False)
-            radial_hints(t, R, True, lambda z: rad, hh * 0.45, shift)
+            radial_hints(along, R, True, lambda z: rad, hh * 0.45, shift)
         else:
             lo, hi, hh = r.uniform(0.4, 1.2), r.uniform(0.4, 1.2), r.uniform(0.5, 1.2)
             if abs(lo - hi) < 0.1:
                 hi = lo + 0.3
             o = ("prim", dict(k="cone", p=[lo, hi, hh], bb=[max(lo, hi)] * 2 + [hh]))
-            radial_hints(t, R, True, lambda z: lo + (hi - lo) * (z + hh) / (2 * hh), hh * 0.9, shift)
+            radial_hints(along, R, True, lambda z: lo + (hi - lo) * (z + hh) / (2 * hh), hh * 0.9, shift)
         mats.append((label + ".m0", ("trans", tr, o)))
     elif rule == "plane":
         # a box face at distance d from a coordinate plane through the unit's origin
@@ -575,7 +575,10 @@ def run(ctx):
 
     # ---------------- generate -------------------------------------------
     inp = ["tol %s" % float(TOL).hex()]
-    prims = load_corpus_prims() + prim_cases(r, n_prims)
+    # corpus primitive: the F6 prism (its emitted surfaces are the `f6_surfaces` of the refutation theorem)
+    f6 = dict(k="genprism", p=[1.0], lo=[[1.0, 1.0], [-1.0, 0.0], [1.0, -1.0]],
+              hi=[[0.0, 0.2], [0.0, 0.2], [0.5, -0.3]], bb=[1.0, 1.0, 1.0])
+    prims = [f6] + load_corpus_prims() + prim_cases(r, n_prims)
     inp.append("case prims")
     for p in prims:
         inp.append("prim " + G.prim_text(p))
@@ -935,6 +938,18 @@ def finding_signature(levels, p, acc_def, acc_built, got, vols=None):
                 return "parallelepiped-exterior-bbox-too-small"
         elif abs(y1) < hy and al != 0 and acc_def != acc_built:
             return "parallelepiped-y-halfwidth-scaled-by-cos-alpha"
+    # GenPrism::build omits the z plane of a degenerate (collapsed) face; with twisted side faces the
+    # remaining surfaces do not close the solid beyond that face: the point is beyond the degenerate
+    # end of such a prism and the built surfaces (model of build) accept it while the definition does not
+    if acc_def != acc_built:
+        for _, tr, pr in pl:
+            if not pr or pr["k"] != "genprism":
+                continue
+            ori = lambda P: (P[1][0] - P[0][0]) * (P[2][1] - P[1][1]) - (P[1][1] - P[0][1]) * (P[2][0] - P[1][0])
+            x, y, z = G.tf_inv_apply(tr, q)
+            hz = pr["p"][0]
+            if (ori(pr["hi"]) == 0 and z > hz) or (ori(pr["lo"]) == 0 and z < -hz):
+                return "genprism-degenerate-face-not-closed-by-twisted-sides"
     # interior boxes that are not inside the solid (sphere: SurfaceClipper sqrt_three/2; prism: square of
     # half-width apothem): the point is outside such a primitive but inside its declared interior box
     if acc_def == acc_built:
@@ -1029,6 +1044,13 @@ def corpus_trees():
                               ("neg", ("prim", dict(k="sphere", p=[1.0], bb=[1.0] * 3)))])])
     u = new_unit("u0", ("def", "bnd", box(10.0)), "media", [], [("u0.m0", ("any", [piece, far]))], True)
     out.append((u, [[0.0, 0.0, 0.0], [5.0, 0.0, 0.0], [0.7, 0.0, 0.0]]))
+    # F6: GenPrism::build omits the +z (-z) plane when that face is degenerate; with TWISTED side faces
+    # the remaining surfaces do not close the solid: a region beyond the collapsed face satisfies all of them
+    gp = dict(k="genprism", p=[1.0], lo=[[1.0, 1.0], [-1.0, 0.0], [1.0, -1.0]],
+              hi=[[0.0, 0.2], [0.0, 0.2], [0.5, -0.3]], bb=[1.0, 1.0, 1.0])
+    u = new_unit("u0", ("def", "bnd", box(10.0)), "media", [],
+                 [("u0.m0", ("all", [box(4.0), ("neg", ("prim", gp))])), ("u0.m1", ("prim", gp))], True)
+    out.append((u, [[0.4, -0.2, 2.0], [1.0, -0.6, 2.5], [0.0, 0.0, 0.0], [0.3, -0.1, 1.5], [0.2, 0.1, 0.5]]))
     return out
 
 
